@@ -2335,3 +2335,13 @@ M("C15-pop-macro-restores-null-into-the-table", "C15", F_PP,
   "      if (manifest == nullptr) {\n        // It was undefined when it was pushed, so make it undefined again.\n        if (mi != _manifests.end()) {\n          _manifests.erase(mi);\n        }\n      } else if (mi != _manifests.end()) {\n        mi->second = manifest;\n      } else {\n        _manifests.insert(Manifests::value_type(macro, manifest));\n      }\n",
   "      if (mi == _manifests.end()) {\n        _manifests.insert(Manifests::value_type(macro, manifest));\n      } else if (manifest == nullptr) {\n        _manifests.erase(mi);\n      } else {\n        mi->second = manifest;\n      }\n",
   expect="R15.31|CPPPreprocessor::handle_pragma_directive|")
+
+# ---- R02.13 (S10-C02: the kept overload set no longer receives the superset)
+M("C02-collapsed-sets-lose-overloads", "C02", F_PN,
+  "  erase_end->second = erase_begin->second;\n", "  if (rmi == map_sets.rbegin()) {\n    erase_end->second = erase_begin->second;\n  }\n",
+  expect="R02.13|collapse_default_remaps|")
+
+# ---- R14.10 (S10-C14: a Derivation pushed with _flags unassigned)
+M("C14-unpublished-base-derivation-flags-unassigned", "C14", F_IB,
+  "            InterrogateType::Derivation d;\n            d._flags = 0;\n            d._base = base_index;\n            d._upcast = 0;", "            InterrogateType::Derivation d;\n            d._base = base_index;\n            d._upcast = 0;",
+  expect="R14.10|InterrogateBuilder::define_struct_type|d._flags|")
